@@ -5,7 +5,7 @@ on every run. The syntax tree (rowan) and LuaDocument are shims: LuaDocument's c
 c22_lineindex; the tree contracts (sibling order, ancestry containment, ranges inside the text) are ASSUMED and listed
 under `trusted`.
 
-PROVED (default mode, exit 0)
+PROVED
   fold      FoldingRangeBuilder::{new, get_root, get_document, build, push, begin_region, finish_region,
             get_block_collapsed_range, get_folding_lsp_range} and ALL twelve callers that construct a FoldingRange
             (stats.rs x6, expr.rs x3, comment.rs, imports.rs, mod.rs build_folding_ranges), whole functions, no slices:
@@ -15,16 +15,21 @@ PROVED (default mode, exit 0)
             inside range, child range inside parent range along the links, links closed and acyclic) is preserved by every
             mutation UNDER call-site preconditions, and build() turns a table with the invariant into a DocumentSymbol tree
             with selection_range inside range and children inside parents at every level; build_child_symbol terminates.
-            + three statement slices of call sites of with_selection_range.
-  selection slice of on_document_selection_range_handle (everything after the token is known): outside doc descriptions
-            the chain is exactly token, parent, grand-parent … root and every parent range CONTAINS its child's range.
+            + three statement slices of call sites of with_selection_range
+            + the range of a binding symbol of a local / assignment statement (slices of build_local_stat_symbol and
+            build_assign_stat_symbol): it contains the name and the value expression whose symbols are hung under it, and lies
+            inside the statement.
+  selection slice of on_document_selection_range_handle (everything after the token is known): outside doc descriptions the
+            chain is the ancestry of the token (token's range first, root's range last, every element the range of an ancestor
+            in ancestor order, no ancestor's range missing; ancestors that span the same text as the entry before them are
+            left out), every parent range CONTAINS its child's range and DIFFERS from it (strictly growing, on the LSP ranges
+            returned). Inside a description the same holds from the description node on; the detail ranges in front are not
+            covered.
 
-REFUTED on the real code (see `findings`; C26_RANGES_FINDINGS=1 turns both into failing obligations):
-  * "selection ranges STRICTLY grow outward": equal ranges are never skipped.
-  * "document symbols nest within their parents": children of a binding of a multi-name local/assignment lie outside it.
+Both former findings of this unit (selection ranges not strictly growing; children of a multi-name binding outside their
+parent) were repaired in the repository: see `fixed_findings`. Their clauses are regular obligations now and the repairs
+are guarded by mutants.
 """
-import os
-import re
 
 H = 'crates/emmylua_ls/src/handlers/'
 FB = H + 'fold_range/builder.rs'
@@ -263,23 +268,31 @@ SEL_ITEMS = {
             sp_tree(token) == sp_doc_id(&document), sp_model_doc(&semantic_model) == sp_doc_id(&document)''',
         'ensures': '''
             r matches Some(res) ==> result@.is_prefix_of(res@) && res@.len() <= result@.len() + 1 /*@C26.selection.frame*/,
-            // outside a doc description one chain is produced: token, parent, grand-parent, … root
+            // outside a doc description one chain is produced: the ancestry of the token from the token itself outward — starts
+            // with the token's range, ends with the root's range, every element the range of an ancestor in ancestor order, no
+            // ancestor's range missing (ancestors spanning the same text as the entry before them are left out)
             r matches Some(res) ==> (!in_description(token) ==> res@.len() == result@.len() + 1
-                && sel_ranges(res@.last()).len() == sp_depth(token) + 1
-                && is_ancestry(&document, token, sel_ranges(res@.last()))) /*@C26.selection.chain-is-ancestry*/,
-            // every parent range contains its child's range: on the whole chain outside a description, from the first
-            // ancestor node on inside a description (the description detail ranges in front are not covered)
-            r matches Some(res) ==> (res@.len() == result@.len() + 1 ==> {
-                let ch = sel_ranges(res@.last());
-                ch.len() >= sp_depth(token)
-                    && growing_from(ch, if in_description(token) { ch.len() - sp_depth(token) } else { 0 })
-            }) /*@C26.selection.parent-contains-child*/''',
+                && is_ancestry(&document, token, sel_ranges(res@.last()), 0)) /*@C26.selection.chain-is-ancestry*/,
+            // … in which every parent range contains its child's range (LSP 3.17)
+            r matches Some(res) ==> (!in_description(token) && res@.len() == result@.len() + 1
+                ==> growing_from(sel_ranges(res@.last()), 0)) /*@C26.selection.parent-contains-child*/,
+            // … and differs from it: the property AS STATED, "selection ranges strictly grow outward"
+            r matches Some(res) ==> (!in_description(token) && res@.len() == result@.len() + 1
+                ==> strictly_growing_from(sel_ranges(res@.last()), 0)) /*@C26.selection.strictly-growing*/,
+            // inside a description: from some position p on the chain is the ancestry of the token from its parent (the
+            // description node) outward, strictly growing; the description detail ranges in front of p are not covered
+            r matches Some(res) ==> (in_description(token) && res@.len() == result@.len() + 1
+                ==> exists|p: int| #[trigger] desc_tail_ok(&document, token, sel_ranges(res@.last()), p)) /*@C26.selection.parent-contains-child*/''',
         'iter_names': {0: 'it', 1: 'it2'},
         'loops': {
             0: '''invariant
                 sp_tree(token) == sp_doc_id(&document),
                 ancestor_chain(token, it.seq()),
-                chain_inv(&document, token, it.seq(), ranges@, k, it.index@ as int, init.len() as int) /*@C26.selection.parent-contains-child.inv*/,''',
+                0 <= p, !in_description(token) ==> p == 0,
+                all_in_doc(&document, ranges@),
+                sel_anc_inv(token, ranges@, p, idx, it.index@ as nat) /*@C26.selection.chain-is-ancestry.inv*/,
+                off_inside_from(ranges@, p) /*@C26.selection.parent-contains-child.inv*/,
+                off_differ_from(ranges@, p) /*@C26.selection.strictly-growing.inv*/,''',
             1: '''invariant
                 sp_doc_ok(&document),
                 it2.seq() == rs.reverse() /*@C26.selection.outermost-first*/,
@@ -288,26 +301,37 @@ SEL_ITEMS = {
                 parent matches Some(p) ==> sel_ranges(*p) == lsp_seq(&document, rs.subrange(rs.len() - it2.index@, rs.len() as int)) /*@C26.selection.chain-is-ancestry.inv*/,''',
         },
         'proof': [
-            (r'for ancestor in token\.parent_ancestors\(\)', 'before', '''let ghost init = ranges@;
-            let ghost k: int = if in_description(token) { init.len() as int } else { 0 };
-            let ghost anc0 = Seq::<Syn>::empty();
+            # ghost state of the ancestor loop: p = position in `ranges` where the ancestry starts (0 outside a description;
+            # inside one: the entry that stands for the description node), idx = ancestor numbers of ranges[p..]
+            (r'for ancestor in token\.parent_ancestors\(\)', 'before', '''let ghost mut p: int = if in_description(token) { ranges@.len() as int } else { 0 };
+            let ghost mut idx: Seq<nat> = seq![0nat];
             proof {
                 axiom_range_in_doc(&document, token);
                 assert forall|i: int| 0 <= i < ranges@.len() implies range_in_doc(&document, #[trigger] ranges@[i]) by { }
-                lemma_anc_init(&document, token, anc0, ranges@);
-                reveal(chain_inv);
+                lemma_anc_init(token, ranges@);
             }'''),
-            (r'for ancestor in token\.parent_ancestors\(\) \{', 'after',
-             'proof { lemma_anc_step(&document, token, it.seq(), ranges@, k, it.index@ as int, init.len() as int); }'),
+            (r'for ancestor in token\.parent_ancestors\(\) \{', 'after', '''proof {
+                lemma_anc_step(&document, token, it.seq(), ranges@, p, idx, it.index@ as nat);
+                let st = anc_step(token, sp_range(ancestor), ranges@, p, idx, it.index@ as nat);
+                p = st.1;
+                idx = st.2;
+            }'''),
             (r'let mut parent: Option<Box<SelectionRange>> = None;', 'before', '''let ghost rs = ranges@;
-            proof { reveal(chain_inv); }'''),
-            (r'let mut parent: Option<Box<SelectionRange>> = None;', 'before', 'let ghost rs = ranges@;'),
+            proof {
+                // a token inside a description has a parent: at least one ancestor was visited
+                if in_description(token) { axiom_parent_contains(token); }
+                lemma_anc_done(token, rs, p, idx);
+            }'''),
             (r'let lsp_range = document\.to_lsp_range\(range\)\?;', 'before', '''let ghost oldp = parent;
             proof { assert(range == rs[rs.len() - 1 - it2.index@]); }'''),
             (r'parent = Some\(Box::new\(selection_range\)\);', 'after',
              'proof { lemma_sel_step(&document, rs, it2.index@ as int, oldp, *parent->Some_0); }'),
-            (r'result\.push\(\*selection_range\);', 'before',
-             'proof { lemma_sel_done(&document, token, rs, k, sel_ranges(*selection_range)); }'),
+            (r'result\.push\(\*selection_range\);', 'before', '''let ghost sr = *selection_range;
+            proof { lemma_sel_done(&document, token, rs, p, idx, sel_ranges(sr)); }'''),
+            (r'result\.push\(\*selection_range\);', 'after', '''proof {
+                assert(result@.last() == sr);
+                if in_description(token) { assert(desc_tail_ok(&document, token, sel_ranges(result@.last()), p)); }
+            }'''),
         ],
     },
 }
@@ -614,51 +638,59 @@ CALLSITE_ITEMS = {
 }
 
 # ---------------------------------------------------------------------------------------------------------------
-# FINDINGS MODE (C26_RANGES_FINDINGS=1): the two clauses of the property that the real code does NOT satisfy, stated as
-# obligations so that the refutation is reproducible with the verifier. They are OFF by default: the unit then contains
-# only what is fully proved. Both have concrete failing inputs replayed on the real code (see `findings`).
+# the range of a binding symbol (document_symbol/stats.rs build_local_stat_symbol / build_assign_stat_symbol). mod.rs then
+# hangs the symbols of the binding's value expression (closure, table fields) under this symbol with
+# process_expr(.., binding.symbol_id, true): the value expression has to lie inside the symbol's range, and the symbol's
+# range inside the statement (whose range lies inside the parent symbol's range).
+# Until commit 52fd530 a binding of a multi-name statement had range = the NAME only (former finding F2).
 # ---------------------------------------------------------------------------------------------------------------
-FINDINGS_MODE = os.environ.get('C26_RANGES_FINDINGS') == '1'
-FINDING_ITEMS = {
-    # stats.rs:37-41: the range of the symbol of a local binding. mod.rs:131-135 then hangs the symbols of the value
-    # expression (closure, table fields) under this symbol: the value expression must lie inside the symbol's range
-    'build_local_stat_symbol::binding_range': {
-        'src': {'kind': 'slice', 'name': 'local_binding_range', 'in': {'file': SST, 'kind': 'fn', 'name': 'build_local_stat_symbol'},
-                'from': r'let range = if simple_local \{', 'to': r'decl\.get_range\(\)\s*\};',
-                'head': 'pub fn local_binding_range(simple_local: bool, local_stat: LuaLocalStat, decl: &LuaDecl, value_expr: LuaExpr) -> TextRange',
+NEST_LABEL = '/*@C26.symbols.child-inside-parent*/'
+
+
+def binding_range_slice(host, name, simple, stat, stat_ty):
+    return {
+        'src': {'kind': 'slice', 'name': name, 'in': {'file': SST, 'kind': 'fn', 'name': host},
+                'from': r'let range = if %s \{' % simple, 'to': r'\} else \{\s*decl\.get_range\(\)\s*\};',
+                'head': 'pub fn %s(%s: bool, %s: %s, decl: &LuaDecl, value_expr: Option<LuaExpr>) -> TextRange'
+                        % (name, simple, stat, stat_ty),
                 'tail': 'range'},
         'ret': 'r',
-        'requires': '''// the value expression bound to this name is a child of the statement; the declaration's range is the name's
-            // range, a child of the statement in front of the value expressions
-            child_of(value_expr, local_stat), sp_range(local_stat).wf(), sp_range(value_expr).wf(), sp_decl_range(decl).wf(),
-            off_inside(sp_decl_range(decl), sp_range(local_stat)), sp_decl_range(decl).end.raw <= sp_range(value_expr).start.raw''',
-        'ensures': 'off_inside(sp_range(value_expr), r) /*@C26.symbols.child-inside-parent*/',
-        'body_first': 'proof { axiom_parent_contains(value_expr); }',
-    },
+        'requires': '''// ranges of tree elements are ordered (axiom_range_in_doc; no document in scope of the slice)
+            sp_range(%(s)s).wf(), sp_decl_range(decl).wf(),
+            // ASSUMED (declaration analysis, by reading): the declaration's range is the range of the name, which is a
+            // child of the statement
+            off_inside(sp_decl_range(decl), sp_range(%(s)s)),
+            // established in front of the slice: the value expression bound to this name (`get(index)` of the statement's
+            // value expressions), if there is one, is a child of the statement
+            value_expr matches Some(e) ==> child_of(e, %(s)s) && sp_range(e).wf()''' % {'s': stat},
+        'ensures': '''// the symbol's range contains the name …
+            off_inside(sp_decl_range(decl), r) && r.wf() %(l)s,
+            // … and the value expression, under which mod.rs hangs the child symbols
+            value_expr matches Some(e) ==> off_inside(sp_range(e), r) %(l)s,
+            // … and lies inside the statement (hence inside the parent symbol, whose range contains the statement)
+            off_inside(r, sp_range(%(s)s)) %(l)s,
+            %(simple)s ==> r == sp_range(%(s)s) /*@C26.symbols.simple-binding-is-statement*/'''
+        % {'s': stat, 'l': NEST_LABEL, 'simple': simple},
+        'body_first': 'proof { if value_expr is Some { axiom_parent_contains(value_expr->Some_0); } }',
+    }
+
+
+BINDING_ITEMS = {
+    'build_local_stat_symbol::binding_range': binding_range_slice(
+        'build_local_stat_symbol', 'local_binding_range', 'simple_local', 'local_stat', 'LuaLocalStat'),
+    'build_assign_stat_symbol::binding_range': binding_range_slice(
+        'build_assign_stat_symbol', 'assign_binding_range', 'simple_var', 'assign_stat', 'LuaAssignStat'),
 }
-if FINDINGS_MODE:
-    SEL_ITEMS['selection_chain']['ensures'] += ''',
-            // the property AS STATED: strictly growing — REFUTED (a token and its single-child parent node have equal ranges)
-            r matches Some(res) ==> (res@.len() == result@.len() + 1 && !in_description(token)
-                ==> strictly_growing_from(sel_ranges(res@.last()), 0)) /*@C26.selection.strictly-growing*/'''
 
 ITEMS = {}
-if FINDINGS_MODE:
-    ITEMS.update(FINDING_ITEMS)
 ITEMS.update(CALLSITE_ITEMS)
+ITEMS.update(BINDING_ITEMS)
 ITEMS.update(FOLD_ITEMS)
 ITEMS.update(SEL_ITEMS)
 ITEMS.update(SYM_ITEMS)
 
-def _template():
-    with open(os.path.join(os.path.dirname(os.path.abspath(__file__)), 'template.rs'), encoding='utf-8') as f:
-        t = f.read()
-    return t.replace('//@@FINDINGS\n', '//@@ build_local_stat_symbol::binding_range\n' if FINDINGS_MODE else '')
-
-
 UNIT = {
     'items': ITEMS,
-    'template_text': _template(),
     'extra_rules': [
         ('c26r-closure-contract-to-lsp-range', r'\|range\| self\.document\.to_lsp_range\(range\)',
          '|range: TextRange| -> (o: Option<lsp_types::Range>)\n'
@@ -677,7 +709,7 @@ UNIT = {
          'of the enum (Default::default() is not called by the code under proof)'),
     ],
     'allow': [
-        r'external_body', r'\buninterp\b', r'axiom_line_col_monotonic', r'axiom_range_in_doc', r'axiom_parent_contains',
+        r'external_body', r'\buninterp\b', r'axiom_line_col_monotonic', r'axiom_line_col_injective', r'axiom_range_in_doc', r'axiom_parent_contains',
         r'assume_specification<T, F: FnOnce\(\) -> T>\[ Option::<T>::get_or_insert_with \]',
         r'assume_specification<\'a, K: Eq \+ Hash \+ Borrow<Q>, V, S: BuildHasher, A: Allocator, Q: Hash \+ Eq \+ \?Sized>\[ HashMap::<K, V, S, A>::get_mut \]',
     ],
@@ -691,6 +723,12 @@ UNIT = {
         'LuaDocument::to_lsp_range shim: r == Some(range of the LSP positions of range.start / range.end), start <= end — proved '
         'in unit c22_lineindex (C22.doc.to_lsp_range, C21.range-wellformed)',
         'axiom_line_col_monotonic (external_body proof fn): proved in unit c22_lineindex: lemma_line_col_monotonic + lemma_position_fits',
+        'ASSUMPTION line-col-injective — axiom_line_col_injective (external_body proof fn on the shimmed LuaDocument positions): two '
+        'char-boundary offsets of the document with the same (line, col) are the same offset. NOT re-proved in unit c22_lineindex on '
+        'every run; it is the C22 round trip: c22 lemma_round_trip (C22.round-trip) + lemma_on_line — if a and b both lie on line l '
+        'with column c then b satisfies offset_ok(l, c, b), so the round trip from a returns b, i.e. b == a (this derivation was '
+        'checked once against the assembled c22 unit). Used only by lemma_lsp_injective: the handler compares TEXT ranges before it '
+        'pushes, [C26.selection.strictly-growing] speaks about the LSP ranges returned',
         # ---- assumed: the syntax tree --------------------------------------------------------------------------------
         'rowan syntax tree, ASSUMED (shims on the single opaque element type `Syn`): prev_sibling_or_token / next_sibling_or_token '
         'return an element that ends before / starts after this one, in the same tree with the same parent, with fewer siblings '
@@ -715,14 +753,18 @@ UNIT = {
         'c10_remove2); vx_into_iter_rev: std contract of Vec::into_iter + DoubleEndedIterator::rev (rule c26r-into-iter-rev)',
         'obeys_key_model::<LuaSyntaxId>() (LuaSyntaxId derives Hash/Eq on (LuaKind, TextRange)) is a precondition of every fn '
         'touching the symbol map; the Hash impl of the shim is external_body',
-        'text-size shim (units/common/textsize.rs) + Ord for TextSize (derived in text-size 1.1.1) added here',
+        'text-size shim (units/common/textsize.rs) + added here: Ord for TextSize (derived in text-size 1.1.1) and TextRange::cover '
+        '(transcribed from text-size-1.1.1/src/range.rs:246-250 with its body, verified against its ensures: start = min of the '
+        'starts, end = max of the ends; the assertion of TextRange::new is a precondition). `cover` is not yet in the Kani '
+        'cross-check of the common shim (kani/shims)',
+        'LuaDecl is opaque; LuaDecl::get_range() == sp_decl_range(decl) (uninterpreted)',
         'lsp_types::{Position, Range, FoldingRange, FoldingRangeKind, DocumentSymbol, SymbolKind, SymbolTag, SelectionRange} '
         'transcribed from emmy_lsp_types 0.1.0',
         # ---- shimmed callees --------------------------------------------------------------------------------------------
         'fold_range/imports.rs is_require_stat: shimmed callee WITHOUT contract (the fold property holds whatever it answers); '
         'Emmyrc projected to runtime.require_like_function',
         'document_selection_range/mod.rs add_detail_ranges: shimmed callee; ASSUMED to only append ranges of the model\'s document '
-        '(nothing assumed about their nesting)',
+        '(nothing assumed about their nesting, order or distinctness)',
     ],
     'call_site_assumptions': [
         'FoldingRangeBuilder::begin_region / finish_region: the argument is a range of the document (the only call sites, '
@@ -730,51 +772,63 @@ UNIT = {
         'DocumentSymbolBuilder::add_node_symbol / add_token_symbol preconditions (NOT checked by the builder, which neither '
         'clamps nor compares ranges): (a) sym_ok: the symbol\'s selection range, if any, lies inside its range; (b) the id is fresh; '
         '(c) the new symbol\'s range lies inside the range of the symbol stored under `parent`. 17 call sites:',
-        '  (a) selection inside range — with_selection_range is called at 3 sites: stats.rs:201 build_func_stat_symbol (name node, '
+        '  (a) selection inside range — with_selection_range is called at 3 sites: stats.rs:207 build_func_stat_symbol (name node, '
         'a child of the statement: PROVED, slice build_func_stat_symbol::symbol); comment.rs:39 build_doc_region_symbol (`--region` '
-        'token, a child of the comment: PROVED, slices ::region_token + ::symbol); stats.rs:173 build_local_func_stat_symbol '
+        'token, a child of the comment: PROVED, slices ::region_token + ::symbol); stats.rs:179 build_local_func_stat_symbol '
         '(name_range = decl.get_range() from the declaration index: ASSUMED to be the range of the name token, by reading '
         'emmylua_code_analysis decl analysis; not under contract). All other sites use LuaSymbol::new (no selection range)',
         '  (c) range inside parent\'s range — by reading: parent ids are the symbols of enclosing syntactic constructs whose range '
-        'is their node range (root mod.rs:57, for stats.rs:105/137 (+ loop variables :119/:152), if/clauses stats.rs:219/235, do stats.rs:257, '
-        'func stats.rs:181/203, closure expr.rs:58, table expr.rs:102, single-name local/assign stats.rs:45/81) EXCEPT when the parent is a binding symbol of a multi-name local/assign statement '
-        '(stats.rs:37-41 / 72-76: range = decl.get_range() = the NAME only): children hung under it by mod.rs:133/141 '
-        'process_expr(.., binding.symbol_id, true) -> expr.rs:58 (closure), expr.rs:117 (table fields), expr.rs:80 (closure params) '
-        'lie OUTSIDE it. This is a genuine violation (see findings)',
+        'is their node range (root mod.rs:57, for stats.rs:111/143 (+ loop variables :125/:158), if/clauses stats.rs:225/241, do '
+        'stats.rs:263, func stats.rs:187/209, closure expr.rs:58, table expr.rs:102) or a binding symbol of a local / assignment '
+        'statement (stats.rs:49/88). For the binding symbols the range is under contract (slices '
+        'build_local_stat_symbol::binding_range / build_assign_stat_symbol::binding_range, [C26.symbols.child-inside-parent]): it '
+        'lies inside the statement and contains the value expression, under which mod.rs:133/141 process_expr(.., binding.symbol_id, '
+        'true) hangs the closure (expr.rs:58), its parameters (expr.rs:80) and the table fields (expr.rs:117). That those children '
+        'lie inside the value expression (they are its descendants) is by reading',
+        'binding_range slices, ASSUMED of the statements in front of them: decl.get_range() (declaration index) is the range of the '
+        'name (LuaLocalName / the assigned LuaVarExpr), a child of the statement, hence inside the statement\'s range; '
+        '`local_values.get(index)` / `exprs.get(index)` is a direct child expression of the statement (get_value_exprs = children(); '
+        'get_var_and_expr_list collects child nodes); ranges of tree elements are ordered',
         'DocumentSymbolBuilder::build: the root chunk\'s id is stored (mod.rs:57 adds it first; nothing removes keys) — by reading',
         'build_child_symbol terminates because the child links are acyclic (table_ok carries a rank function): PROVED to be '
         'preserved by new / add_node_symbol / add_token_symbol / link_parent_child under (b) and parent != child',
     ],
-    'findings': [
+    # both defects this unit had found were REPAIRED in the repository; their clauses are regular obligations now
+    'fixed_findings': [
         {'clause': 'C26 selection ranges strictly grow outward',
-         'obligation (findings mode)': 'selection_chain:postcondition-not-satisfied[C26.selection.strictly-growing]',
-         'where': 'crates/emmylua_ls/src/handlers/document_selection_range/mod.rs:38-52: every ancestor range is pushed; nothing skips an '
-                  'ancestor whose range equals the previous one',
-         'input': 'document "local x = 1", textDocument/selectionRange at line 0 character 6',
-         'observed': 'chain of text ranges 6..7 (token x), 6..7 (LocalName node), 0..11 (LocalStat), 0..11 (Block), 0..11 (Chunk): '
-                     'parent.range == range at 3 of the 4 links (27 equal links over the 12 offsets of the document)',
-         'replayed': 'scratch copy of the repo + #[cfg(test)] module running the handler loop body verbatim (the handler needs a live '
-                     'ServerContextSnapshot): build/t/c26_ranges/wt, `VR_TEXT=\'local x = 1\' <test binary> vr_selection --nocapture`',
-         'severity': 'LSP 3.17 only demands that parent.range CONTAINS range (proved); strictness is demanded by property C26 as stated'},
+         'status': 'fixed', 'commit': '604fa2e',
+         'fix': 'document_selection_range/mod.rs:47-53: an ancestor range is pushed only `if ranges.last() != Some(&range)`',
+         'was': 'every ancestor range was pushed, equal or not: document "local x = 1", selectionRange at 0:6 gave the chain of text '
+                'ranges 6..7 (token x), 6..7 (LocalName), 0..11 (LocalStat), 0..11 (Block), 0..11 (Chunk) — parent.range == range at 3 '
+                'of the 4 links',
+         'now proved as': 'selection_chain [C26.selection.strictly-growing] (+ loop invariant [C26.selection.strictly-growing.inv])',
+         'guarded by mutants': ['selection-guard-removed', 'selection-guard-inverted']},
         {'clause': 'C26 document symbols nest within their parents',
-         'obligation (findings mode)': 'build_local_stat_symbol::binding_range:postcondition-not-satisfied[C26.symbols.child-inside-parent]',
-         'where': 'document_symbol/stats.rs:37-41 (and :72-76 for assignments): with more than one name the binding symbol gets '
-                  'range = decl.get_range() (the NAME only); document_symbol/mod.rs:131-135 (and :139-143) then hangs the symbols of the '
-                  'value expression (expr.rs:58 closure, expr.rs:117 table fields) under it',
-         'input': 'document "local a, b = function() end, 2" (also "a, b = { x = 1 }, 2"), textDocument/documentSymbol',
-         'observed': 'symbol a range 0:6-0:7 has child "closure" range 0:13-0:27; for the second input a 0:0-0:1 has child x 0:9-0:14',
-         'replayed': 'same scratch copy, test calling the real build_document_symbol: `VR_TEXT=\'local a, b = function() end, 2\' '
-                     '<test binary> vr_symbols --nocapture` prints CHILD-OUTSIDE-PARENT'},
+         'status': 'fixed', 'commit': '52fd530',
+         'fix': 'document_symbol/stats.rs:37-45 and :75-83: with more than one name the binding symbol\'s range is '
+                'decl.get_range().cover(expr.get_range()) when the name has a value expression (the name only when it has none, and '
+                'then nothing is hung under it)',
+         'was': 'range = decl.get_range() (the NAME only) while mod.rs hangs the symbols of the value expression under it: document '
+                '"local a, b = function() end, 2": symbol a 0:6-0:7 had child "closure" 0:13-0:27; "a, b = { x = 1 }, 2": a 0:0-0:1 had '
+                'child x 0:9-0:14',
+         'now proved as': 'build_local_stat_symbol::binding_range / build_assign_stat_symbol::binding_range '
+                          '[C26.symbols.child-inside-parent]',
+         'guarded by mutants': ['local-binding-range-name-only', 'assign-binding-range-name-only', 'local-binding-range-value-only',
+                                'assign-binding-simple-uses-name']},
     ],
     'not_covered': [
-        'selection ranges STRICTLY growing: REFUTED on the real code (no code skips equal ranges: a token and its single-child '
-        'parent node have the same range) — only "parent contains child" (non-strict, which is what LSP 3.17 demands) is proved',
-        'selection ranges inside a doc description: the detail ranges produced by add_detail_ranges (parse_desc items sorted by '
-        'length and filtered by `contains(offset)`) are not shown to be nested in each other or in the description node',
+        'selection ranges inside a doc description (the add_detail_ranges path): the detail ranges produced by add_detail_ranges '
+        '(parse_desc items sorted by length and filtered by `contains(offset)`) are not shown to be nested in each other, to differ '
+        'from each other, or to lie inside the description node; add_detail_ranges is a shimmed callee. Proved there: from the entry '
+        'that stands for the description node on, the chain is the ancestry of the token and grows strictly; the link from the last '
+        'detail range to the first ancestor range pushed is only known to be a link between DIFFERENT text ranges (the guard), not '
+        'to be a containment',
         'the handler prologues (uri -> file id -> semantic model, position -> offset -> token_at_offset) and on_document_symbol '
         'stripping the root symbol',
         'document_symbol/{mod,stats,expr}.rs traversal (process_block/process_stat/process_expr, build_*_symbol other than the '
-        'three slices): that it satisfies the preconditions of add_node_symbol is by reading, and FALSE for multi-name bindings',
+        'three with_selection_range slices and the two binding_range slices): that it satisfies the preconditions of add_node_symbol '
+        'is by reading (see call_site_assumptions (c)); the binding_range slices cover the range computation only, not the loop '
+        'around it (decl lookup, LuaSymbol::new, add_node_symbol, SymbolBinding)',
         'DocumentSymbolBuilder::{get_file_id, get_decl, get_type, with_symbol_mut, get_symbol_kind_and_detail}, '
         'LuaSymbol::{set_kind, set_detail} (do not touch ranges or links)',
         'folding: Intellij branch sets character = start_col + 1 (may point past the end of the line); that lines exist in the '
@@ -789,7 +843,9 @@ UNIT = {
         'build_imports_fold_range: start of the first .. end of the last require statement of a run',
         'DocumentSymbolBuilder::build: table_ok ==> ds_sel_ok(r) && ds_nest_ok(r) (recursively: selection inside range, child range inside parent range)',
         'add_node_symbol: table_ok preserved (ranges nest along links, links closed and acyclic) under the call-site preconditions',
-        'selection_chain: outside descriptions chain[i] == LSP range of the i-th ancestor of the token, chain[i] inside chain[i+1]',
+        'selection_chain: outside descriptions the chain is the ancestry of the token with equal-range ancestors left out; '
+        'chain[i] inside chain[i+1] and chain[i] != chain[i+1] (LSP ranges)',
+        'local_binding_range / assign_binding_range: name and value expression inside the result, result inside the statement',
     ],
     'mutants': [
         # ---- folding -----------------------------------------------------------------------------------------------------
@@ -865,6 +921,19 @@ UNIT = {
         {'name': 'region-symbol-range-args-swapped', 'item': 'build_doc_region_symbol::symbol',
          'pattern': r'range,(\s*)selection_range,(\s*)\);', 'repl': r'selection_range,\1range,\2);',
          'expect': r'build_doc_region_symbol::symbol.*C26\.symbols\.selection-inside-range'},
+        # the repair of former finding F2 (commit 52fd530) undone: a multi-name binding's range is the name only again
+        {'name': 'local-binding-range-name-only', 'item': 'build_local_stat_symbol::binding_range',
+         'pattern': r'decl\.get_range\(\)\.cover\(expr\.get_range\(\)\)', 'repl': 'decl.get_range()',
+         'expect': r'build_local_stat_symbol::binding_range.*C26\.symbols\.child-inside-parent'},
+        {'name': 'assign-binding-range-name-only', 'item': 'build_assign_stat_symbol::binding_range',
+         'pattern': r'decl\.get_range\(\)\.cover\(expr\.get_range\(\)\)', 'repl': 'decl.get_range()',
+         'expect': r'build_assign_stat_symbol::binding_range.*C26\.symbols\.child-inside-parent'},
+        {'name': 'local-binding-range-value-only', 'item': 'build_local_stat_symbol::binding_range',
+         'pattern': r'decl\.get_range\(\)\.cover\(expr\.get_range\(\)\)', 'repl': 'expr.get_range()',
+         'expect': r'build_local_stat_symbol::binding_range.*C26\.symbols\.child-inside-parent'},
+        {'name': 'assign-binding-simple-uses-name', 'item': 'build_assign_stat_symbol::binding_range',
+         'pattern': r'assign_stat\.get_range\(\)', 'repl': 'decl.get_range()',
+         'expect': r'build_assign_stat_symbol::binding_range.*C26\.symbols\.(child-inside-parent|simple-binding-is-statement)'},
         # ---- selection ranges ------------------------------------------------------------------------------------------------
         {'name': 'selection-chain-not-reversed', 'item': 'selection_chain',
          'pattern': r'ranges\.into_iter\(\)\.rev\(\)', 'repl': 'ranges.into_iter()',
@@ -872,6 +941,13 @@ UNIT = {
         {'name': 'selection-ancestors-push-token-range', 'item': 'selection_chain',
          'pattern': r'let range = ancestor\.text_range\(\);', 'repl': 'let range = token.text_range();',
          'expect': r'selection_chain.*C26\.selection'},
+        # the repair of former finding F1 (commit 604fa2e) undone: every ancestor range is pushed, equal or not
+        {'name': 'selection-guard-removed', 'item': 'selection_chain',
+         'pattern': r'if ranges\.last\(\) != Some\(&range\) \{\s*ranges\.push\(range\);\s*\}', 'repl': 'ranges.push(range);',
+         'expect': r'selection_chain.*C26\.selection\.strictly-growing'},
+        {'name': 'selection-guard-inverted', 'item': 'selection_chain',
+         'pattern': r'if ranges\.last\(\) != Some\(&range\)', 'repl': 'if ranges.last() == Some(&range)',
+         'expect': r'selection_chain.*C26\.selection\.(strictly-growing|chain-is-ancestry)'},
         {'name': 'selection-parent-link-dropped', 'item': 'selection_chain',
          'pattern': r'range: lsp_range,(\s*)parent,', 'repl': r'range: lsp_range,\1parent: None,',
          'expect': r'selection_chain.*(C26\.selection|precondition-not-satisfied)'},
